@@ -208,3 +208,122 @@ func OnceFunc(f func()) func() {
 // Touch marks an access to unsynchronised shared state (inserted by the overlay generator in
 // front of statements that read or write the named package-level variable).
 func Touch(name string) { sched.Point("touch " + name) }
+
+// Map models sync.Map: every operation is a scheduling point in front of the real operation
+// (the map itself is safe for concurrent use; what the explorer varies is the order of the
+// operations of different goroutines).
+type Map struct{ m sync.Map }
+
+func (m *Map) Load(key any) (any, bool) { sched.Point("Map.Load"); return m.m.Load(key) }
+func (m *Map) Store(key, value any)     { sched.Point("Map.Store"); m.m.Store(key, value) }
+func (m *Map) LoadOrStore(key, value any) (any, bool) {
+	sched.Point("Map.LoadOrStore")
+	return m.m.LoadOrStore(key, value)
+}
+func (m *Map) LoadAndDelete(key any) (any, bool) {
+	sched.Point("Map.LoadAndDelete")
+	return m.m.LoadAndDelete(key)
+}
+func (m *Map) Delete(key any) { sched.Point("Map.Delete"); m.m.Delete(key) }
+func (m *Map) Swap(key, value any) (any, bool) {
+	sched.Point("Map.Swap")
+	return m.m.Swap(key, value)
+}
+func (m *Map) CompareAndSwap(key, old, new any) bool {
+	sched.Point("Map.CompareAndSwap")
+	return m.m.CompareAndSwap(key, old, new)
+}
+func (m *Map) CompareAndDelete(key, old any) bool {
+	sched.Point("Map.CompareAndDelete")
+	return m.m.CompareAndDelete(key, old)
+}
+func (m *Map) Range(f func(key, value any) bool) { sched.Point("Map.Range"); m.m.Range(f) }
+func (m *Map) Clear()                            { sched.Point("Map.Clear"); m.m.Clear() }
+
+// RWMutex models sync.RWMutex like Mutex (a writer excludes everybody, readers share).
+type RWMutex struct {
+	mu      sync.RWMutex
+	writer  bool
+	readers int
+}
+
+func (m *RWMutex) Lock() {
+	if !sched.Active() {
+		m.mu.Lock()
+		return
+	}
+	for {
+		sched.Point("RWMutex.Lock")
+		if !m.writer && m.readers == 0 {
+			m.writer = true
+			return
+		}
+	}
+}
+
+func (m *RWMutex) Unlock() {
+	if !sched.Active() {
+		m.mu.Unlock()
+		return
+	}
+	sched.Point("RWMutex.Unlock")
+	m.writer = false
+}
+
+func (m *RWMutex) RLock() {
+	if !sched.Active() {
+		m.mu.RLock()
+		return
+	}
+	for {
+		sched.Point("RWMutex.RLock")
+		if !m.writer {
+			m.readers++
+			return
+		}
+	}
+}
+
+func (m *RWMutex) RUnlock() {
+	if !sched.Active() {
+		m.mu.RUnlock()
+		return
+	}
+	sched.Point("RWMutex.RUnlock")
+	m.readers--
+}
+
+// Once models sync.Once: Do is a scheduling point; a second goroutine that arrives while the
+// first still runs f waits through scheduling points.
+type Once struct {
+	mu      sync.Mutex
+	done    bool
+	running bool
+	once    sync.Once
+}
+
+func (o *Once) Do(f func()) {
+	if !sched.Active() {
+		o.once.Do(f)
+		return
+	}
+	for {
+		sched.Point("Once.Do")
+		if o.done {
+			return
+		}
+		if !o.running {
+			o.running = true
+			f()
+			o.done = true
+			o.running = false
+			return
+		}
+	}
+}
+
+// WaitGroup is the real one (the harness bodies do not wait on the library's goroutines).
+type WaitGroup = sync.WaitGroup
+
+// Locker is the real interface.
+type Locker = sync.Locker
